@@ -267,6 +267,16 @@ func c16Run(c *fw.Ctx) {
 			}
 		}
 	}
+	// the shared key holding the EMPTY string (present, but everything "is it there?" shortcut
+	// that confuses empty with absent answers differently)
+	var pairsEmpty []scen
+	for _, store := range []string{"reference", "example"} {
+		for i, a := range names {
+			for _, b := range names[i:] {
+				pairsEmpty = append(pairsEmpty, scen{c16Case{Store: store, Initial: [][]string{{"SET", "k", ""}}, Ops: [][][]string{{variant(kinds[a], 0)}, {variant(kinds[b], 1)}}}, store + "|empty-value|" + a + "+" + b})
+			}
+		}
+	}
 	// the same pairs on a server that requires a password (every client AUTHs first):
 	// the path a command takes must not depend on how the connection got authorized
 	var pairsPw []scen
@@ -328,7 +338,7 @@ func c16Run(c *fw.Ctx) {
 		}
 		return true
 	}
-	if !phase("p1_pairs_bound2", pairs, 2) || !phase("p1_pairs_requirepass_bound2", pairsPw, 2) || !restarts("p1_restart_in_flight_bound1", 1) || !c.Thorough() {
+	if !phase("p1_pairs_bound2", pairs, 2) || !phase("p1_pairs_requirepass_bound2", pairsPw, 2) || !phase("p1_pairs_empty_value_bound1", pairsEmpty, 1) || !restarts("p1_restart_in_flight_bound1", 1) || !c.Thorough() {
 		return
 	}
 	if !restarts("p2_restart_in_flight_bound2", 2) {
@@ -404,7 +414,7 @@ func init() {
 	fw.Register(&fw.Prop{
 		ID:          "C16",
 		Level:       "model_checking",
-		Rule:        "for every unordered pair of operation kinds from {GET, SET, SETNX, GETSET, INCR, DECRBY, APPEND, MSETNX, DEL, INCRBY 0} (thorough: also triples, and pairs followed by reads): 2 (3) clients issue them concurrently on one shared key (MSETNX over two keys, one shared), initial state absent or '1' (and once more on a server with requirepass, every client sending AUTH first), through the real accept loop and connection goroutines, against (a) a reference store whose primitives are atomic steps each preceded by a scheduling point and (b) the instrumented example store (sync.Map operations are scheduling points); every schedule within deviation bound 2; plus 144 held-command scenarios (Restart, Stop+Start or nothing issued while a composite command of client A is held between its read and its first write by a slow store, client B writing the same key through the restarted server, then the held handler released; A's lost reply counts as executed-or-not; deviation bound 1, thorough 2); thorough continues in phases, each complete only when its <phase>_done counter equals <phase>_scenarios: pairs at bound 3, pairs followed by a read on each side at bound 2, triples (reference store) at bound 2, pairs at bound 4, pairs+reads at bound 3, triples at bound 3; each complete execution yields a client-side history (invocation/response stamped with the scheduler's step counter) to which a final read-out of every key by a fresh connection is appended; porcupine checks the whole history for linearizability against the Redis model. A scenario is non-trivial when its schedules produce more than one distinct reply vector.",
+		Rule:        "for every unordered pair of operation kinds from {GET, SET, SETNX, GETSET, INCR, DECRBY, APPEND, MSETNX, DEL, INCRBY 0} (thorough: also triples, and pairs followed by reads): 2 (3) clients issue them concurrently on one shared key (MSETNX over two keys, one shared), initial state absent or '1' (bound 1: also the empty string; and once more on a server with requirepass, every client sending AUTH first), through the real accept loop and connection goroutines, against (a) a reference store whose primitives are atomic steps each preceded by a scheduling point and (b) the instrumented example store (sync.Map operations are scheduling points); every schedule within deviation bound 2; plus 144 held-command scenarios (Restart, Stop+Start or nothing issued while a composite command of client A is held between its read and its first write by a slow store, client B writing the same key through the restarted server, then the held handler released; A's lost reply counts as executed-or-not; deviation bound 1, thorough 2); thorough continues in phases, each complete only when its <phase>_done counter equals <phase>_scenarios: pairs at bound 3, pairs followed by a read on each side at bound 2, triples (reference store) at bound 2, pairs at bound 4, pairs+reads at bound 3, triples at bound 3; each complete execution yields a client-side history (invocation/response stamped with the scheduler's step counter) to which a final read-out of every key by a fresh connection is appended; porcupine checks the whole history for linearizability against the Redis model. A scenario is non-trivial when its schedules produce more than one distinct reply vector.",
 		Assumptions: []string{"sequentially consistent interleavings", "histories of more than 3 clients or 2 operations per client are not explored"},
 		Run:         c16Run,
 		Replay:      c16Replay,
